@@ -13,8 +13,9 @@ CONSTANTS MaxChunks, Levels
 VARIABLES D,      \* chunks written so far (records shaped like the lifter's Chunk events)
           tails,  \* cached tail per list key: offset of the last chunk, 0 = none
           headc,  \* index in D of the track HEAD chunk
-          closed
-lvars == <<D, tails, headc, closed>>
+          closed,
+          pending \* in-place patches of the current call not yet written: <<kind, chunk index, level, value>>
+lvars == <<D, tails, headc, closed, pending>>
 
 Keys == {<<"trk", 34, 1>>} \cup { <<"trk", 35, 1 + 4096 * l>> : l \in Levels } \cup { <<"trk", 36, 1 + 4096 * l>> : l \in Levels }
 
@@ -26,24 +27,38 @@ Chunk(off, tag, meta, prev) ==
 NextOff == 32 + 32 * Len(D)
 
 LInit == /\ D = <<Chunk(32, 33, 1, 0)>>          \* the FSR track HEAD chunk of signal 1
-         /\ tails = [k \in Keys |-> 0] /\ headc = 1 /\ closed = FALSE
+         /\ tails = [k \in Keys |-> 0] /\ headc = 1 /\ closed = FALSE /\ pending = <<>>
 
-\* append a chunk of list key k: prev = cached tail; patch the tail's next; move the tail;
-\* INDEX and DATA chunks update the head table the first time their level appears
+\* One backend write per step, in the order of the code: the complete chunk first (prev = cached
+\* tail), then the in-place patch of the old tail's item_next, then - the first time a level
+\* appears - the in-place patch of the head table.
 AppendChunk(k) ==
     LET c == Chunk(NextOff, k[2], k[3], tails[k])
-        D1 == Append(D, c)
-        D2 == IF tails[k] = 0 THEN D1 ELSE [D1 EXCEPT ![At(D1, tails[k])].next = c.off]
         lvl == k[3] \div 4096
         isHeadKind == (k[2] = 34 /\ lvl = 0) \/ (k[2] = 35)
-        D3 == IF isHeadKind /\ D2[headc].offs[lvl + 1] = 0 THEN [D2 EXCEPT ![headc].offs[lvl + 1] = c.off] ELSE D2
-    IN /\ D' = D3 /\ tails' = [tails EXCEPT ![k] = c.off]
+    IN /\ pending = <<>>
+       /\ D' = Append(D, c)
+       /\ tails' = [tails EXCEPT ![k] = c.off]
+       /\ pending' = (IF tails[k] = 0 THEN <<>> ELSE << <<"next", At(D, tails[k]), 0, c.off>> >>)
+                      \o (IF isHeadKind /\ D[headc].offs[lvl + 1] = 0 THEN << <<"head", headc, lvl, c.off>> >> ELSE <<>>)
+
+Patch == /\ pending # <<>>
+         /\ LET p == Head(pending) IN
+            D' = IF p[1] = "next" THEN [D EXCEPT ![p[2]].next = p[4]] ELSE [D EXCEPT ![p[2]].offs[p[3] + 1] = p[4]]
+         /\ pending' = Tail(pending)
+         /\ UNCHANGED <<tails, headc, closed>>
 
 LNext == /\ ~closed
          /\ \/ /\ Len(D) < MaxChunks /\ \E k \in Keys : AppendChunk(k) /\ UNCHANGED <<headc, closed>>
-            \/ /\ closed' = TRUE /\ D' = Append(D, Chunk(NextOff, 255, 0, 0)) /\ UNCHANGED <<tails, headc>>
+            \/ Patch
+            \/ /\ pending = <<>> /\ closed' = TRUE /\ D' = Append(D, Chunk(NextOff, 255, 0, 0)) /\ UNCHANGED <<tails, headc, pending>>
 LSpec == LInit /\ [][LNext]_lvars
 
-LinksOk == Links(IF closed THEN D ELSE Append(D, Chunk(NextOff, 255, 0, 0))) = ""
-HeadsOk == Heads(D) = ""
+LinksOk == pending = <<>> => Links(IF closed THEN D ELSE Append(D, Chunk(NextOff, 255, 0, 0))) = ""
+HeadsOk == pending = <<>> => Heads(D) = ""
+\* C03 rests on this: after ANY prefix of the backend writes, every pointer on disk is 0 or
+\* leads to a chunk that is completely on disk
+PointersValid == /\ \A i \in 1..Len(D) : D[i].next # 0 => At(D, D[i].next) # 0
+                 /\ \A i \in 1..Len(D) : D[i].prev # 0 => At(D, D[i].prev) # 0
+                 /\ \A l \in 1..16 : D[headc].offs[l] # 0 => At(D, D[headc].offs[l]) # 0
 ==========================================================================
